@@ -217,6 +217,64 @@ theorem grahamScan_sub (F : DOps α) (orient : P α → P α → P α → Int) (
       · simp [h1]
   · exact fun _ h => h
 
+/-! ### The scan returns a closed ring that starts and ends at the focal point -/
+
+theorem popFold_last (F : DOps α) (orient : P α → P α → P α → Int) (q : C α) (n : List Nat)
+    (st : C α × List (C α) × Bool) :
+    ((n.foldl (fun st _ => popStep F orient q st) st).1 ::
+      (n.foldl (fun st _ => popStep F orient q st) st).2.1).getLast (by simp)
+      = (st.1 :: st.2.1).getLast (by simp) := by
+  induction n generalizing st with
+  | nil => rfl
+  | cons k n ih =>
+    simp only [List.foldl_cons]
+    rw [ih (popStep F orient q st)]
+    unfold popStep
+    split
+    · rfl
+    · split
+      · rename_i top below heq
+        split
+        · simp only [heq, List.getLast_cons_cons]
+        · rfl
+      · rfl
+
+theorem scanStep_last (F : DOps α) (orient : P α → P α → P α → Int) (stack : List (C α)) (q : C α)
+    (hne : stack ≠ []) :
+    ∃ hne' : scanStep F orient stack q ≠ [],
+      (scanStep F orient stack q).getLast hne' = stack.getLast hne := by
+  cases stack with
+  | nil => exact absurd rfl hne
+  | cons p below =>
+    refine ⟨by simp [scanStep], ?_⟩
+    simp only [scanStep, popWhile]
+    rw [List.getLast_cons (by simp)]
+    exact popFold_last F orient q (List.range (below.length + 1)) (p, below, false)
+
+theorem scanFold_last (F : DOps α) (orient : P α → P α → P α → Int) (rest stack : List (C α))
+    (hne : stack ≠ []) :
+    ∃ hne' : rest.foldl (scanStep F orient) stack ≠ [],
+      (rest.foldl (scanStep F orient) stack).getLast hne' = stack.getLast hne := by
+  induction rest generalizing stack with
+  | nil => exact ⟨hne, rfl⟩
+  | cons q rest ih =>
+    obtain ⟨h1, e1⟩ := scanStep_last F orient stack q hne
+    obtain ⟨h2, e2⟩ := ih (scanStep F orient stack q) h1
+    exact ⟨h2, by simp only [List.foldl_cons]; rw [e2, e1]⟩
+
+/-- **The Graham scan returns a closed ring**: with at least three points its result starts with the
+first point it was given (the focal point, lowest then leftmost, after the pre-sort) and ends with
+that same coordinate — whatever the orientation predicate answers. -/
+theorem C13_scan_closed (F : DOps α) (orient : P α → P α → P α → Int) (a b c : C α) (rest : List (C α)) :
+    (grahamScan F orient (a :: b :: c :: rest)).head? = some a ∧
+    (grahamScan F orient (a :: b :: c :: rest)).getLast? = some a := by
+  obtain ⟨hne, hl⟩ := scanFold_last F orient rest [c, b, a] (by simp)
+  simp only [grahamScan]
+  constructor
+  · rw [List.head?_reverse, List.getLast?_cons_of_ne_nil hne, List.getLast?_eq_some_getLast hne, hl]
+    rfl
+  · simp [List.getLast?_reverse]
+
 /-- The coordinates of a result. -/
 def HullResult.verts : HullResult α → List (C α)
   | .nil => []
